@@ -278,8 +278,10 @@ void filesystem_queries()
       guarded(e_repl.name, [&] {
         sfs::path const r = fcppt::filesystem::replace_extension(p, buf.view());
         if (!fname.empty() && fname != "." && fname != ".." && x[0] != 0 && x[0] != '.')
-          VRT_CHECK(r.string() == c.text.substr(0, c.text.size() - rext.size()) + "." + x, e_repl.name + ":wrong", "got \"%s\"",
-                    r.string().c_str());
+          // documented: "Replaces the extension of path with new_extension ... excluding the dot"; compared up to redundant
+          // separators, like remove_extension
+          VRT_CHECK(r.lexically_normal() == sfs::path(c.text.substr(0, c.text.size() - rext.size()) + "." + x).lexically_normal(),
+                    e_repl.name + ":wrong", "got \"%s\"", r.string().c_str());
       });
     }
     if (e_norm.begin_text(d))
@@ -454,12 +456,13 @@ void filesystem_create()
             which ? fcppt::filesystem::create_directories_recursive(p) : fcppt::filesystem::create_directory(p);
         struct stat t;
         bool const is_dir = ::stat(text.c_str(), &t) == 0 && S_ISDIR(t.st_mode);
-        // no error reported <=> the path is a directory afterwards
-        VRT_CHECK(r.has_value() == !is_dir, e.name + (is_dir ? ":spurious_error" : ":silent_failure"),
-                  "error=%d (%s) but is-a-directory=%d", (int)r.has_value(), r.has_value() ? r.get_unsafe().message().c_str() : "-",
-                  (int)is_dir);
-        if (was_dir)
-          VRT_CHECK(!r.has_value(), e.name + ":existing_dir", "an existing directory is reported as an error");
+        // C01: a failure has to be reported through the optional_error_code: no error => the path is a directory afterwards
+        if (!is_dir)
+          VRT_CHECK(r.has_value(), e.name + ":silent_failure", "no error reported but the path is not a directory afterwards");
+        // the converse (no error for a path that is a directory afterwards, in particular for one that already existed) is
+        // what std::filesystem::create_directory does but not what the fcppt documentation promises: information only
+        if (is_dir)
+          C01_INFO(!r.has_value(), e.name + ":error_although_directory_exists");
       });
       if (!first_new.empty())
       {
@@ -485,14 +488,15 @@ void is_flag_all()
     exact<char> const buf(s); // exactly s.size() bytes: a read at end() is a heap-buffer-overflow
     guarded(e.name, [&] {
       auto const r = fcppt::options::impl::is_flag(buf.view());
+      // is_flag is an undocumented internal function: what it returns is an implementation detail of options::parse
+      // (whose results are the subject of C03); only its totality is a verdict here, the values are information
       bool const flag = !s.empty() && s[0] == '-';
-      VRT_CHECK(r.has_value() == flag, e.name + (flag ? ":missing" : ":spurious"), "has_value=%d", (int)r.has_value());
+      C01_INFO(r.has_value() == flag, e.name + (flag ? ":missing" : ":spurious"));
       if (flag && r.has_value() && s.size() >= 2) // "-" alone: no expectation about the name
       {
         bool const is_long = s[1] == '-';
         std::string const name = s.substr(is_long ? 2 : 1);
-        VRT_CHECK(r.get_unsafe().first.get() == !is_long && r.get_unsafe().second == name, e.name + ":wrong", "short=%d name \"%s\"",
-                  (int)r.get_unsafe().first.get(), r.get_unsafe().second.c_str());
+        C01_INFO(r.get_unsafe().first.get() == !is_long && r.get_unsafe().second == name, e.name + ":wrong");
       }
     });
   }
@@ -570,7 +574,8 @@ void next_arg_all()
               ++cur;
           }
           long const got = r.has_value() ? static_cast<long>(r.get_unsafe() - v.begin()) : -1;
-          VRT_CHECK(got == want, e.name + ":wrong", "got %ld want %ld", got, want);
+          // which argument an internal helper picks is an implementation detail (C03 checks the parse results): information
+          C01_INFO(got == want, e.name + ":wrong");
         }
       });
     }
